@@ -922,7 +922,7 @@ def ambient_cases():
 def run(ctx):
     tier = ctx.tier
     sg_, lad = sigmas(tier), ladder(tier)
-    k = 2 if ctx.quick else 4
+    k = 3 if ctx.quick else 4
     ctx.rule(f'C13: (0) minimal inputs of DESIGN 8 #8-#12; (1) full product s0,s1 in {sg_} x mu/max(s0,s1) in {lad} x '
              f'[OOK | PPM M in {MS} x (hard, soft)] for ook/ppm.theory_BER incl. vector calls; (2) the same product x offsets mu0 in {OFFSETS} '
              f'for THRESHOLD_EST, BER_analizer("estimator") and utils.optimum_threshold; (3) receiver model: every point within {k} deviations of two '
